@@ -32,7 +32,7 @@ reg("C08", "runtime monitor: exception / process-death observer around synthesiz
     "Every generated accepted design is synthesized with IterateSATGen, RandomGen, CMSGen and UniGen (the latter in a forked child so that a dying interpreter is observed) with 0, 1 or 3 requested sequences; any escaping exception or death is a violation unless it matches a listed known finding.",
     "predicates of generated derived levels raise on undocumented arguments (charged to the library); native sampler hangs are inconclusive")
 reg("C09", "runtime monitor: returned-list sizes and duplicate counts for request sizes around the number of solutions",
-    "For small designs the three without-replacement strategies are called with 0,1,2,A-1,A,A+1,3A requested; len == min(requested, A) and per-sequence multiplicities bounded by the reference copy count.", _R)
+    "For small designs the three without-replacement strategies are called with 0,1,2,A-1,A,A+1,3A requested; len == min(requested, A) and per-sequence multiplicities bounded by the reference copy count; for designs with more sequences than the cap, the cap+1 returned sequences must still be pairwise distinct.", _R)
 reg("C14", "runtime monitor: full variable-table consistency check and decode round trips on real blocks",
     "On every generated block the complete (trial, factor, level)->variable table is rebuilt through three public accessors, checked for injectivity/range/agreement, decode_variable is inverted, and random one-hot assignments are pushed through the real Gen.decode.",
     "applicability rule of derived factors as documented (start/stride)")
@@ -59,11 +59,11 @@ reg("C25", "runtime monitor: statement-derived structural oracle on every sequen
     "Every sequence the real samplers return for generated Nest designs is cut into groups and judged (outer constancy, outer projection valid, each group valid for the inner block alone); exhausted sets are compared with the explicit product construction and between the two association orders.",
     "validity of a sub-block alone by the reference model; nests without preamble trials; <= 500 sequences")
 reg("C26", "runtime monitor: exhausted solution sets of three builds (no constraint / constraint on the block / constraint on the combinator) compared through an independent window evaluator",
-    "S1 must equal the sequences of the unconstrained set that satisfy the constraint inside every repetition window, S2 those that satisfy it over the whole sequence; Repeat (with/without preamble), Merge(REPEAT) and Nest.",
+    "S1 must equal the sequences of the unconstrained set that satisfy the constraint inside every repetition window, S2 those that satisfy it over the whole sequence; Repeat (with/without preamble), Merge(REPEAT), Nest, and POST_PREAMBLE-aligned Nest (constraint on the outer / inner block) and Merge, where windows start after the common preamble.",
     "the library's unconstrained set is the universe; repetition-window geometry as documented; <= 700 sequences")
 reg("C19", "runtime monitor: state snapshots around every call of random library-call histories on one block, later syntheses judged for validity",
     "Random histories of synthesize/print/tabulate/csv/convert/mismatch calls on one block (half with continuous factors); the block's observable design state is snapshotted around each call and every later synthesize_trials must return valid sequences with the first call's columns. A later exception that a fresh block reproduces is charged to C08, not here.",
-    "snapshot fields: design names/order, continuous factors, crossings, trial count, constraints, errors; R for the discrete part")
+    "snapshot fields: design names/order, continuous factors, crossings, trial count, constraints, errors; R for the discrete part; on the appended LatinSquare/Sequential/combinator/multi-crossing histories where R is undecided, later sequences must be among those an unused block of the same design returns with the same kind of sampler (<= 400)")
 reg("C22", "runtime monitor: recording probe distributions and constraint predicates with unique values, returned sequences re-derived from their own values",
     "CustomDistribution functions are probes (unique fresh values, deterministic dependent/window functions), so each returned value identifies the call and attempt that produced it; every returned sequence is re-derived: counts, constraints at every trial, same-trial dependencies, documented windows with NaN rules, cumulative restarts, discrete part by R.",
     "probe functions deterministic in their arguments; built-in distributions observed through ranges only")
@@ -72,7 +72,7 @@ reg("C05", "runtime monitor: exhaustive walk of RandomGen's random-draw tree und
     "reference model R; random.randrange is the only randomness; trees up to 6000 (30000 thorough) leaves; designs with weighted uncrossed factors excluded here")
 reg("C23", "runtime monitor: differential comparison of a weighted design with its copy-expanded twin (exhausted solution multisets mapped back)",
     "Each weighted basic level is replaced by separately named copies (tables rewritten); the twin's exhausted sequences, mapped back, with copies of crossed levels collapsed and copies of uncrossed levels kept distinct, must equal the weighted design's multiset for IterateSATGen and RandomGen; trial counts and constructor outcomes must agree.",
-    "copy semantics as documented for Level; constraints never name a weighted level directly; <= 900 twin sequences")
+    "copy semantics as documented for Level (copies are one solution only if the factor is in EVERY crossing); appended cases: weighted derived level crossed over a weighted uncrossed factor, weighted factor in only some crossings, Nest; constraints never name a weighted level directly; <= 900 twin sequences")
 reg("C18", "runtime monitor: histories of block constructions from one shared object pool compared with fresh builds (solution sets, trial counts, mismatch verdicts)",
     "2-4 blocks are built in random order from ONE pool of factor and constraint objects, interleaved with synthesis calls; each block's trial count, exhausted IterateSATGen and RandomGen sets and mismatch verdicts on fixed candidates must equal those of the same block built alone from fresh objects.",
     "sets by level names; <= 300 sequences; the listed known finding absorbs only blocks whose shared constraint object was first used in an earlier block")
